@@ -134,6 +134,14 @@ def _ifpd(c):
         c.expect_trace(lambda k: rec('_restore_state', Val.Obj(me), Opt.v(cell)), If(And(Opt.is_Some(cell), fresh_enough), 1, 0))
 
 
+@contract('SBlock.get_state', qual='edzed.block:SBlock.get_state', modifies=(), self_cls='SBlock')
+def _sblock_get_state(c):
+    me = c.z('self')
+    out = c.pre('_output', me)
+    c.raises('EdzedInvalidState', when=out == Val.Undef, iff=True, label='an_uninitialised_block_has_no_state')
+    c.ensures('the_state_is_the_output', c.rv == out)
+
+
 @contract('FSM.get_state', qual='edzed.fsm:FSM.get_state', modifies=(), self_cls='FSM')
 def _fsm_get_state(c):
     me = c.z('self')
@@ -300,6 +308,18 @@ def build(run):
     callers = scan.method_callers('save_persistent_state')
     run.scan('save_sites', callers == ['edzed/addons.py:AddonPersistence.event', 'edzed/simulator.py:Circuit._init_sblocks_sync_2', 'edzed/simulator.py:Circuit.run_forever'], f'{callers}')
     run.replayer('FSM._set_timer/post:callback_clears_the_fired_handle', lambda run_, ob, model: open('/verif/specs/replay_c06.py').read())
+    # ---- blocks whose state is their output (Counter, Input, ...): get_state / _restore_state round trip --------------------------------------
+    from specs import c20
+    run.verify('SBlock.get_state', cls='SBlock', hooks={'opaque_fstrings': True})
+    run.verify('Counter._setmod', cls='Counter')          # Counter._restore_state is _setmod (scan below)
+    out, mod = Const('saved_output', Val), Const('modulo', Val)
+    rng = [Or(mod == Val.VNone, And(is_num(mod), num(mod) > 0)), is_num(out), Implies(mod != Val.VNone, And(0 <= num(out), num(out) < num(mod)))]
+    rng += list(floorq_axioms(num(out), num(mod)))         # definition of the real floor quotient used by sp_mod
+    run.lemma('counter_round_trip/restoring_the_saved_output_yields_the_same_output', rng, py_eq(c20.reduced(out, mod), out))
+    from edzed.blocklib import sblocks1 as _sb1, sblocks2 as _sb2
+    run.scan('restore_state_aliases', _sb1.Counter._restore_state is _sb1.Counter._setmod and _sb1.Counter.init_from_value is _sb1.Counter._setmod
+             and _sb2.Input._restore_state is _sb2.Input.init_from_value and 'get_state' not in vars(_sb1.Counter) and 'get_state' not in vars(_sb2.Input),
+             'Counter._restore_state is _setmod, Input._restore_state is init_from_value (validated like a put: C17); both use the default get_state (the output)')
     from specs import lifecycle, startup
     startup.verify_startup(run)             # _init_sblocks_sync_2: states are saved after the initialisation, only with a storage
     lifecycle.verify_run_forever(run)       # clean-up: states + stop time saved iff the start completed, before the blocks are stopped
